@@ -1230,6 +1230,18 @@ func streamCrcGate(seed uint64, thorough bool) {
 			emit("parse1", L(I(w), B(b), B(nil)), parseAny(w, withCap(b, nil)))
 		}
 		try(good)
+		// one buffer reused the way a client reuses its read buffer: the good frame, then the trailer
+		// and then the body overwritten in place -- a verdict may depend on the bytes only, never on
+		// what the same memory held at an earlier call
+		{
+			buf := append([]byte(nil), f.bytes...)[:n:n]
+			emit("parse1", L(I(w), B(buf), B(nil)), parseAny(w, buf))
+			binary.LittleEndian.PutUint16(buf[n-2:], good^uint16(1+r.intn(65535)))
+			emit("parse1", L(I(w), B(buf), B(nil)), parseAny(w, buf))
+			binary.LittleEndian.PutUint16(buf[n-2:], good)
+			buf[r.intn(n-2)] ^= byte(1 << r.intn(8))
+			emit("parse1", L(I(w), B(buf), B(nil)), parseAny(w, buf))
+		}
 		if full {
 			for t := 0; t < 65536; t++ {
 				try(uint16(t))
@@ -1275,6 +1287,15 @@ func streamCrcGate(seed uint64, thorough bool) {
 			for _, w := range []int{404, 405, 302} {
 				emit("parse1", L(I(w), B(v), B(nil)), parseAny(w, withCap(v, nil)))
 			}
+		}
+		// the recognisers on one reused 5-byte buffer: right trailer, then wrong in place
+		for _, w := range []int{404, 405, 302} {
+			buf := append([]byte(nil), b...)[:5:5]
+			emit("parse1", L(I(w), B(buf), B(nil)), parseAny(w, buf))
+			buf[3+r.intn(2)] ^= byte(1 << r.intn(8))
+			emit("parse1", L(I(w), B(buf), B(nil)), parseAny(w, buf))
+			buf[2] ^= 0x10
+			emit("parse1", L(I(w), B(buf), B(nil)), parseAny(w, buf))
 		}
 	}
 }
@@ -1546,6 +1567,24 @@ func streamClassify(seed uint64, thorough bool) {
 				}
 			}
 		}
+	}
+	// protocol ids: a complete, otherwise valid FC3 / FC16 request under every protocol id of the
+	// families a folded test gets wrong (bytes that sum, xor, and or multiply to 0 mod 256) plus a
+	// random sample; thorough = all 65 536 ids
+	for p := 0; p < 65536; p++ {
+		hi, lo := p>>8, p&0xff
+		fam := hi == 0 || lo == 0 || (hi+lo)&0xff == 0 || hi == lo || hi&lo == 0 || (hi*lo)&0xff == 0 || hi|lo == 0xff
+		if !thorough && !fam && r.intn(40) != 0 {
+			continue
+		}
+		b := []byte{0, 0, 0, 0, 0, 6, 1, 3, 0, 10, 0, 2}
+		if p%3 == 1 {
+			b = []byte{0, 0, 0, 0, 0, 9, 1, 16, 0, 10, 0, 1, 2, 0xab, 0xcd}
+		}
+		putU16(b, 0, r.u16())
+		putU16(b, 2, uint16(p))
+		allow := p%7 == 0
+		emit("classify", L(B(b), Bool(allow)), classify(b, allow))
 	}
 	// dense grid of short announced lengths with the whole announced frame present and plausible
 	// field values: this is where a parser's minimum-length guard and the classifier can disagree
